@@ -20,10 +20,12 @@ from hxsim.stepclock import SimAbort, SimTimeout, StepBudgetExceeded, StepClock
 
 PROPERTY = 'C02'
 STREAMS = {
-    'history': {'quick': 7500, 'thorough': 250000, 'chunk': 150},
+    'history': {'quick': 6000, 'thorough': 250000, 'chunk': 150},
     'hostlists': {'quick': 2500, 'thorough': 60000, 'chunk': 100},   # H3 slice: host lists into every function
     # an asynchronous interrupt at EVERY step of an evaluation in turn, probes judged after each
     'intsweep': {'quick': 100, 'thorough': 4000, 'chunk': 4, 'selftest_max': 6},
+    # the live-object census on generated formulas: one formula repeated, growth measured
+    'leak': {'quick': 2000, 'thorough': 80000, 'chunk': 40, 'selftest_max': 30},
 }
 
 CLOCKS = ['2024-02-29T13:14:15.161718', '2024-02-29T23:59:59.999999', '2024-03-01T00:00:00', '1900-01-01T00:00:00',
@@ -116,7 +118,67 @@ def execute_intsweep(sc, stats):
     return vio
 
 
+def gen_leak(rng, i):
+    slot = scen.gen_slot(rng, fault=rng.choice([0.0, 0.0, 0.3]), hostile=False, excs=scen.BENIGN_EXC)
+    env = scen.slot_env(slot)
+    names = formgen.fn_names()
+    r = rng.random()
+    if r < 0.5:
+        # every built-in in turn, arguments by parameter name, often with an error value among them
+        f = formgen.builtin_call(rng, env, 1, names[i % len(names)], force_typed=rng.random() < 0.7)
+        if rng.random() < 0.4:
+            f = f[:-1] + (',' if not f.endswith('()') else '') + rng.choice(['1/0', '#N/A', 'NA()', 'zz_top', '#REF!', 'SQRT(-1)']) + ')'
+        if rng.random() < 0.3:
+            f = rng.choice(['IFERROR(%s,"n/a")', 'ISERROR(%s)', 'IFNA(%s,0)', 'IF(ISERR(%s),1,2)']) % f
+    else:
+        f = _gen_formula(rng, env)
+    return {'engine': 'leak', 'slots': [slot], 'formula': formgen.tame(f), 'clock': CLOCKS[0], 'rand': 0.25, 'tick_us': None,
+            'debug': rng.random() < 0.2}
+
+
+def execute_leak(sc, stats):
+    spec = scen.clone(sc['slots'][0])
+    spec['debug'] = bool(sc.get('debug'))
+    world = World([spec])
+    _set_env(sc, sc['clock'])
+    f = sc['formula']
+    WARM, N, TOL = 12, 40, 8
+
+    def rep(n):
+        for _ in range(n):
+            try:
+                world.evaluate(0, f)
+            except BaseException as e:
+                if isinstance(e, (KeyboardInterrupt, SystemExit)):
+                    raise
+    clock = StepClock()
+    out = _outcome(world, clock, 0, f, scen.host_elements(spec))     # traced once: guards against hangs
+    if out == ['budget']:
+        return []
+    rep(WARM)
+    c0 = _census()
+    rep(N)
+    c1 = _census()
+    rep(2 * N)
+    c2 = _census()
+    stats['evals'] += WARM + 3 * N + 1
+    stats['steps'] += clock.steps
+    stats['probe:leak_class[%s]' % ('error' if (out[0] == 'record' and out[3] != ['none']) else out[0] if out[0] != 'record' else 'value')] += 1
+    d1 = sum(c1.values()) - sum(c0.values())
+    d2 = sum(c2.values()) - sum(c1.values())
+    ft2 = (c2['frame'] + c2['traceback']) - (c1['frame'] + c1['traceback'])
+    sc['_nt'] = [1]
+    if (d2 > TOL and d1 > TOL // 2) or ft2 > TOL:
+        grow = [(t, c2[t] - c1[t]) for t in sorted(c2) if c2[t] - c1[t] > 0]
+        return [{'invariant': 'H4_retention', 'sig': 'H4:generated',
+                 'detail': {'formula': _esc(f), 'what': 'gc-tracked objects grow by %d per %d repetitions, then %d per %d (frames/tracebacks %d): %s'
+                                                       % (d1, N, d2, 2 * N, ft2, grow[:6])}}]
+    return []
+
+
 def gen(stream, rng, i, cfg):
+    if stream == 'leak':
+        return gen_leak(rng, i)
     if stream == 'intsweep':
         return gen_intsweep(rng, i)
     if stream == 'hostlists':
@@ -422,6 +484,8 @@ def nontrivial(sc, stats):
     # non-trivial history: at least one judged evaluation produced a value, after at least one earlier operation
     if sc.get('engine') == 'intsweep':
         return canon.digest_int([sc['slots'], sc['victim'], sc['probes']]) if nt else None
+    if sc.get('engine') == 'leak':
+        return canon.digest_int([sc['slots'], sc['formula']]) if nt else None
     if not nt or len(sc['ops']) < 2:
         return None
     return canon.digest_int([sc['slots'], sc['ops']])
@@ -604,6 +668,16 @@ def single_process_tasks(tier, seed, cfg):
 def shrink_candidates(sc):
     if 'census_class' in sc:
         return
+    if sc.get('engine') == 'leak':
+        for s in scen.shrink_slot(sc['slots'][0]):
+            d = dict(sc)
+            d['slots'] = [s]
+            yield d
+        for t in scen.shrink_text(sc['formula']):
+            d = dict(sc)
+            d['formula'] = t
+            yield d
+        return
     if sc.get('engine') == 'intsweep':
         ks = sc.get('ks', [])
         if len(ks) > 1:
@@ -670,6 +744,8 @@ _execute_history = execute
 def execute(sc, stats):  # noqa: F811  (dispatch: census replays vs histories)
     if sc.get('engine') == 'intsweep':
         return execute_intsweep(sc, stats)
+    if sc.get('engine') == 'leak':
+        return execute_leak(sc, stats)
     if 'census_class' in sc:
         r = census_task({'N': sc.get('N', 200), 'block_tol': 150})
         return [v for s, vs in r['violations'] if s['census_class'] == sc['census_class'] for v in vs] or \
@@ -688,7 +764,8 @@ def describe():
                 'rebinding, debug toggles, clock jumps, parsers built mid-history), compared with the same formula on a fresh '
                 'parser carrying the same bindings under the same simulated clock and random constant; plus interrupt sweeps (an asynchronous '
                 'interrupt at every step of a victim evaluation in turn, three probe formulas judged after each) and the '
-                'live-object census over 29 outcome classes; distinct = distinct (slots, operation list) by blake2b digest; '
+                'live-object census over 29 hand-picked outcome classes and over generated formulas (every built-in in turn, arguments by '
+                'parameter name, error values among them, wrapped in IFERROR/ISERROR); distinct = distinct (slots, operation list) by blake2b digest; '
                 'non-trivial = history of >= 2 operations in which at least one judged evaluation produced a value',
         'fault_kinds': ['interrupt_timeout', 'interrupt_abort', 'interrupt_sweep_point', 'cb_abort', 'cb_raise', 'listener_raise',
                         'syntaxerror_from_callback', 'rebind_variable', 'rebind_function', 'rebind_listener', 'listener_off',
